@@ -1921,6 +1921,12 @@ def run_C12(ctx):
         mt = {name: 1700000000 + rng.randrange(100000) for name in files}
         s["dir_m"] = add({"argv": ["validate", "-r", "{DIR}/rd", "-d", "{DIR}/dd", "-m"] + sflags, "files": files, "mtimes": mt})
         s["mt"] = mt
+        if nr >= 2:
+            fb = dict(files)
+            fb["ta/checks.guard"] = rfiles[0]
+            fb["tb/checks.guard"] = rfiles[1]
+            s["samebase"] = add({"argv": ["validate", "-r", "{DIR}/ta/checks.guard", "-r", "{DIR}/tb/checks.guard"] + dargs(range(ndocs)) + sflags, "files": fb})
+            s["samebase_ref"] = add({"argv": ["validate"] + rargs([0, 1]) + dargs(range(ndocs)) + sflags, "files": files})
         s["payload"] = add({"argv": ["validate", "--payload"] + sflags, "files": {},
                             "stdin": json.dumps({"rules": rfiles, "data": [json.dumps(d) for d in docs]})})
         scen.append(s)
@@ -1983,6 +1989,12 @@ def run_C12(ctx):
                 res.judge_failures.append(dict(info, what="--payload batch differs from the pairs validated alone", **{"class": "c12-payload"}))
         except Exception as e:
             res.judge_failures.append(dict(info, what="--payload output unreadable (%s), exit %s" % (e, po["code"]), **{"class": "c12-payload"}))
+        # two rules files with the same base name in different directories are two rules files
+        if "samebase" in s:
+            ra, rb = reports(outs[s["samebase"]]), reports(outs[s["samebase_ref"]])
+            if ra != rb or outs[s["samebase"]]["code"] != outs[s["samebase_ref"]]["code"]:
+                res.judge_failures.append(dict(info, what="two rules files with the same base name in different directories give another result than the same files under distinct names (exit %s vs %s)" % (
+                    outs[s["samebase"]]["code"], outs[s["samebase_ref"]]["code"]), **{"class": "c12-same-base-name"}))
         # failure iff some pair fails
         any_fail = any(c == 19 for c in single_codes.values())
         all_ok = all(c in (0, 19) for c in single_codes.values())
@@ -2029,7 +2041,8 @@ def c12_test_cases(ctx, res, rng):
         rules += ("let zv = %s\nrule zdep when %s {\nthis is_struct\n}\nrule zref {\n%s\n}\nrule znot {\nnot %s\n}\n"
                   "rule zvar {\n%%zv exists\n}\n") % (rng.choice(list(docs[0].keys()) or ["a"]) if docs[0] else "a", dep, dep, dep)
         allnames = names + ["zdep", "zref", "znot", "zvar"]
-        specs = [{"name": "case%d" % k, "input": d, "expectations": {"rules": {nm: rng.choice(["PASS", "FAIL", "SKIP"]) for nm in allnames if rng.random() < 0.8}}}
+        specs = [{"name": "case%d" % k, "input": d,
+                  "expectations": {"rules": ({} if rng.random() < 0.45 else {nm: rng.choice(["PASS", "FAIL", "SKIP"]) for nm in allnames if rng.random() < 0.8})}}
                  for k, d in enumerate(docs)]
         sc = {"rules": rules, "specs": specs, "jobs": {}}
         for fmt in ("plain", "json", "yaml", "junit"):
@@ -2688,7 +2701,10 @@ def yaml12_dumper(rng):
     def rep_str(dumper, s):
         plain_ok = _re.fullmatch(r"[A-Za-z][A-Za-z ]*[A-Za-z]|[A-Za-z]", s) and s.lower() not in (
             "true", "false", "null", "yes", "no", "on", "off", "y", "n", "inf", "nan", "infinity")
-        style = None if (plain_ok and rng.random() < 0.6) else rng.choice(["'", '"'])
+        styles = ["'", '"']
+        if s and s == s.strip() and all(ord(c) >= 32 for c in s):
+            styles += ["|", ">"]          # literal / folded block scalars are strings too, whatever they spell
+        style = None if (plain_ok and rng.random() < 0.6) else rng.choice(styles)
         return dumper.represent_scalar("tag:yaml.org,2002:str", s, style=style)
     D.add_representer(str, rep_str)
     return D
@@ -3274,6 +3290,15 @@ def c05_scenarios(ctx, n):
             cfn = rng.random() < 0.5
             docs = [g.cfn_doc() if cfn else g.doc() for _ in range(rng.choice([1, 2, 3]))]
             rfiles = [g.rules_file(docs[0], depth=2, cfn=cfn) for _ in range(rng.choice([1, 2]))]
+            if i % 2 == 0:
+                # one name in two spelling conventions, queried in a third and a fourth (case-conversion fallback)
+                for d_ in docs:
+                    d_["retentionDays"] = 1
+                    d_["RetentionDays"] = 2
+                    d_["max_size"] = "m"
+                    d_["MaxSize"] = "M"
+                rfiles[0] += ("rule zcase1 {\nretention_days == 1\n}\nrule zcase2 {\nthis.'retention-days' == 2\n}\n"
+                              "rule zcase3 {\nmaxSize == 'm'\nthis.'Max-Size' == 'M'\n}\n")
             files = {}
             for k, t in enumerate(rfiles):
                 files["rd/r%d.guard" % k] = t
